@@ -424,8 +424,13 @@ def r01_4_retag(ctx, rid='R01.4'):
     for n in f.walk():
         if isinstance(n, ast.Assign) and any(norm(t) == '%s.tag' % node for t in n.targets) \
                 and norm(n.value) != 'self.__type_to_tag(%s)' % rt:
-            r.fail(f.key('foreign-tag-store:%s' % norm(n.value)), f.loc(n),
-                   '__process_node writes %s to the node tag' % norm(n.value))
+            # an intermediate tag is harmless iff the retag (or strip) still follows on every path to an exit
+            sn = f.nid(n)
+            later = all(f.cfg.must_pass(sn, rn, marks - {sn}) for rn in f.cfg.returns() if rn in f.cfg.reachable(sn))
+            r.check(later, 'intermediate tag store %s is overwritten by the retag before every exit' % norm(n.value),
+                    f.key('foreign-tag-store:%s' % norm(n.value)), f.loc(n),
+                    '__process_node writes %s to the node tag and can return without overwriting it with the tag of the '
+                    'recognised type' % norm(n.value))
     type_to_tag_table(ctx, r)
     r.done()
 
